@@ -290,6 +290,9 @@ pub struct Receiver {
     tx: mpsc::Sender<PortEvt>,
     rx: mpsc::UnboundedReceiver<PortReceiveMsg>,
     receiving: Receiving,
+    /// First chunk of a message that was received while the chunks of the previous,
+    /// cancelled message were being streamed. It is processed by the next receive call.
+    pending: Option<ReceivedData>,
     credits: ChannelCreditReturner,
     closed: bool,
     finished: bool,
@@ -333,6 +336,7 @@ impl Receiver {
             tx,
             rx,
             receiving: Receiving::Nothing,
+            pending: None,
             credits,
             closed: false,
             finished: false,
@@ -424,18 +428,21 @@ impl Receiver {
                 }
 
                 // Try to receive next chunk.
-                _ => match self.rx.recv().await {
+                _ => match self.next_msg().await {
+                    // First segment without last segment indicates that last transmission
+                    // was cancelled. Keep the segment for the next receive call.
+                    Some(PortReceiveMsg::Data(data))
+                        if data.first && matches!(&self.receiving, Receiving::Chunks { .. }) =>
+                    {
+                        self.receiving = Receiving::Nothing;
+                        self.pending = Some(data);
+                        return Err(RecvChunkError::Cancelled);
+                    }
+
                     Some(PortReceiveMsg::Data(data)) => {
                         self.credits.start_return(data.credit, self.remote_port, &self.tx);
 
                         match (&self.receiving, data.first) {
-                            // First segment without last segment indicates that last transmission
-                            // was cancelled.
-                            (Receiving::Chunks { .. }, true) => {
-                                self.receiving =
-                                    Receiving::Chunks { chunks: vec![data.buf].into(), completed: data.last };
-                                return Err(RecvChunkError::Cancelled);
-                            }
                             // Either continuation or start of transmission.
                             (Receiving::Chunks { .. }, false) | (_, true) => {
                                 self.receiving =
@@ -473,6 +480,14 @@ impl Receiver {
         }
     }
 
+    /// Returns the next message from the port, processing a kept first segment first.
+    async fn next_msg(&mut self) -> Option<PortReceiveMsg> {
+        match self.pending.take() {
+            Some(data) => Some(PortReceiveMsg::Data(data)),
+            None => self.rx.recv().await,
+        }
+    }
+
     /// Receives data or ports over the channel.
     pub async fn recv_any(&mut self) -> Result<Option<Received>, RecvError> {
         if self.finished {
@@ -482,7 +497,7 @@ impl Receiver {
         loop {
             self.credits.return_flush().await;
 
-            match self.rx.recv().await {
+            match self.next_msg().await {
                 // Data message.
                 Some(PortReceiveMsg::Data(data)) => {
                     self.credits.start_return(data.credit, self.remote_port, &self.tx);
